@@ -167,6 +167,7 @@ class PathCtx:
         self.nofork = 0            # >0: speculative (merge) mode, forks not allowed
         self.ghost = {}
         self.soft = []             # preferences for small counter-models (never part of a proof)
+        self.ranges = {}           # z3 const id -> [lo, hi] known from the path condition (syntactic facts only)
 
     # -- fresh symbols ---------------------------------------------------
     def fresh_name(self, hint):
@@ -195,6 +196,99 @@ class PathCtx:
         self.pc.append(cond)
         self.solver.add(cond)
 
+    def note_fact(self, cond):
+        """record simple range facts  x <= c / x >= c / x == c  (x an uninterpreted constant) for the interval analysis"""
+        if not z3.is_app(cond):
+            return
+        k = cond.decl().kind()
+        if k == z3.Z3_OP_AND:
+            for i in range(cond.num_args()):
+                self.note_fact(cond.arg(i))
+            return
+        neg = False
+        if k == z3.Z3_OP_NOT:
+            inner = cond.arg(0)
+            if not z3.is_app(inner):
+                return
+            k2 = inner.decl().kind()
+            flip = {z3.Z3_OP_LE: z3.Z3_OP_GT, z3.Z3_OP_GE: z3.Z3_OP_LT, z3.Z3_OP_LT: z3.Z3_OP_GE, z3.Z3_OP_GT: z3.Z3_OP_LE}
+            if k2 not in flip:
+                return
+            k, cond = flip[k2], inner
+        if k not in (z3.Z3_OP_LE, z3.Z3_OP_GE, z3.Z3_OP_LT, z3.Z3_OP_GT, z3.Z3_OP_EQ) or cond.num_args() != 2:
+            return
+        a, b = cond.arg(0), cond.arg(1)
+        if not (z3.is_int(a) and z3.is_int(b)):
+            return
+        if z3.is_int_value(a) and not z3.is_int_value(b):
+            a, b = b, a
+            k = {z3.Z3_OP_LE: z3.Z3_OP_GE, z3.Z3_OP_GE: z3.Z3_OP_LE, z3.Z3_OP_LT: z3.Z3_OP_GT, z3.Z3_OP_GT: z3.Z3_OP_LT,
+                 z3.Z3_OP_EQ: z3.Z3_OP_EQ}[k]
+        if not z3.is_int_value(b) or not (z3.is_const(a) and a.decl().kind() == z3.Z3_OP_UNINTERPRETED):
+            return
+        c = b.as_long()
+        r = self.ranges.setdefault(a.get_id(), [None, None])
+        if k == z3.Z3_OP_LE:
+            r[1] = c if r[1] is None else min(r[1], c)
+        elif k == z3.Z3_OP_LT:
+            r[1] = c - 1 if r[1] is None else min(r[1], c - 1)
+        elif k == z3.Z3_OP_GE:
+            r[0] = c if r[0] is None else max(r[0], c)
+        elif k == z3.Z3_OP_GT:
+            r[0] = c + 1 if r[0] is None else max(r[0], c + 1)
+        else:
+            r[0] = c if r[0] is None else max(r[0], c)
+            r[1] = c if r[1] is None else min(r[1], c)
+
+    def quick(self, cond):
+        """True / False when the interval analysis decides cond, else None"""
+        if not z3.is_app(cond):
+            return None
+        k = cond.decl().kind()
+        if k == z3.Z3_OP_NOT:
+            r = self.quick(cond.arg(0))
+            return None if r is None else (not r)
+        if k == z3.Z3_OP_AND:
+            res = True
+            for i in range(cond.num_args()):
+                r = self.quick(cond.arg(i))
+                if r is False:
+                    return False
+                if r is None:
+                    res = None
+            return res
+        if k == z3.Z3_OP_OR:
+            res = False
+            for i in range(cond.num_args()):
+                r = self.quick(cond.arg(i))
+                if r is True:
+                    return True
+                if r is None:
+                    res = None
+            return res
+        if k in (z3.Z3_OP_LE, z3.Z3_OP_GE, z3.Z3_OP_LT, z3.Z3_OP_GT, z3.Z3_OP_EQ, z3.Z3_OP_DISTINCT) and cond.num_args() == 2:
+            a, b = cond.arg(0), cond.arg(1)
+            if not (z3.is_int(a) and z3.is_int(b)):
+                return None
+            lo, hi = bounds(simp(a - b))
+            if k == z3.Z3_OP_LE:
+                return True if (hi is not None and hi <= 0) else (False if (lo is not None and lo > 0) else None)
+            if k == z3.Z3_OP_LT:
+                return True if (hi is not None and hi < 0) else (False if (lo is not None and lo >= 0) else None)
+            if k == z3.Z3_OP_GE:
+                return True if (lo is not None and lo >= 0) else (False if (hi is not None and hi < 0) else None)
+            if k == z3.Z3_OP_GT:
+                return True if (lo is not None and lo > 0) else (False if (hi is not None and hi <= 0) else None)
+            if k == z3.Z3_OP_EQ:
+                if (lo is not None and lo > 0) or (hi is not None and hi < 0):
+                    return False
+                return True if (lo == 0 and hi == 0) else None
+            if k == z3.Z3_OP_DISTINCT:
+                if (lo is not None and lo > 0) or (hi is not None and hi < 0):
+                    return True
+                return False if (lo == 0 and hi == 0) else None
+        return None
+
     def check_sat(self, *extra):
         self.solver_calls += 1
         self.solver.push()
@@ -222,6 +316,9 @@ class PathCtx:
             return True
         if z3.is_false(cond):
             return False
+        q = self.quick(cond)
+        if q is not None:
+            return q
         return self.check_sat(z3.Not(cond)) == z3.unsat
 
     def path_feasible(self):
@@ -239,6 +336,9 @@ class PathCtx:
             return True
         if z3.is_false(cond):
             return False
+        q = self.quick(cond)
+        if q is not None:
+            return q
         idx = len(self.trace)
         if idx < len(self.prefix):
             taken, flip = self.prefix[idx]
@@ -264,6 +364,7 @@ class PathCtx:
         c = cond if taken else simp(z3.Not(cond))
         self.pc.append(c)
         self.solver.add(c)
+        self.note_fact(c)
         return taken
 
     def choose(self, n, hint="choice"):
@@ -370,7 +471,81 @@ def bounds(t, depth=0):
         return (None if a[0] is None else a[0] // m), (None if a[1] is None else a[1] // m)
     if k == z3.Z3_OP_SELECT:
         return 0, None
+    if k == z3.Z3_OP_UNINTERPRETED and t.num_args() == 0:
+        c = _CTX[0]
+        if c is not None:
+            r = c.ranges.get(t.get_id())
+            if r is not None:
+                return r[0], r[1]
+    if k == z3.Z3_OP_SUB and t.num_args() == 2:
+        a, b = bounds(t.arg(0), depth + 1), bounds(t.arg(1), depth + 1)
+        lo = None if a[0] is None or b[1] is None else a[0] - b[1]
+        hi = None if a[1] is None or b[0] is None else a[1] - b[0]
+        return lo, hi
+    if k == z3.Z3_OP_UMINUS:
+        a = bounds(t.arg(0), depth + 1)
+        return (None if a[1] is None else -a[1]), (None if a[0] is None else -a[0])
+    if k == z3.Z3_OP_MUL and t.num_args() == 2:
+        for c_, x in ((t.arg(0), t.arg(1)), (t.arg(1), t.arg(0))):
+            if z3.is_int_value(c_) and c_.as_long() < 0:
+                a = bounds(x, depth + 1)
+                m = c_.as_long()
+                return (None if a[1] is None else a[1] * m), (None if a[0] is None else a[0] * m)
     return None, None
+
+
+def _byte_core(t):
+    """t == ((u div d) mod 256) -> (u, d) ; (u mod 256) -> (u, 1); else None"""
+    if not z3.is_app(t) or t.decl().kind() != z3.Z3_OP_MOD:
+        return None
+    m = t.arg(1)
+    if not z3.is_int_value(m) or m.as_long() != 256:
+        return None
+    x = t.arg(0)
+    if z3.is_app(x) and x.decl().kind() == z3.Z3_OP_IDIV and z3.is_int_value(x.arg(1)) and x.arg(1).as_long() > 0:
+        return x.arg(0), x.arg(1).as_long()
+    return x, 1
+
+
+def recombine_bytes(t):
+    """rewrite sum_k 256^k * ((u div 256^k) mod 256), k = 0..m-1  into  u mod 256^m  (exact for every integer u)"""
+    t = simp(t)
+    if not z3.is_app(t) or t.decl().kind() != z3.Z3_OP_ADD:
+        return t
+    addends = [t.arg(i) for i in range(t.num_args())]
+    groups = {}
+    rest = []
+    for a in addends:
+        coef, core = 1, a
+        if z3.is_app(a) and a.decl().kind() == z3.Z3_OP_MUL and a.num_args() == 2:
+            if z3.is_int_value(a.arg(0)):
+                coef, core = a.arg(0).as_long(), a.arg(1)
+            elif z3.is_int_value(a.arg(1)):
+                coef, core = a.arg(1).as_long(), a.arg(0)
+        bc = _byte_core(core)
+        if bc is not None and coef == bc[1]:
+            groups.setdefault(bc[0].get_id(), (bc[0], {}))[1][bc[1]] = a
+        else:
+            rest.append(a)
+    changed = False
+    for uid, (u, parts) in groups.items():
+        m = 0
+        while (256 ** m) in parts:
+            m += 1
+        if m >= 2:
+            rest.append(u % I(256 ** m))
+            for d, a in parts.items():
+                if d >= 256 ** m:
+                    rest.append(a)
+            changed = True
+        else:
+            rest.extend(parts.values())
+    if not changed:
+        return t
+    out = rest[0]
+    for a in rest[1:]:
+        out = out + a
+    return simp(out)
 
 
 def int_and(a, b):
@@ -384,6 +559,9 @@ def int_and(a, b):
         # symbolic & symbolic: only the shape x & (1 << k) style reaches here rarely
         raise OutOfReach("symbolic & symbolic")
     if cb >= 0:
+        lo_b, hi_b = bounds(simp(ta))
+        if lo_b is not None and hi_b is not None and lo_b >= 0 and (cb & (cb + 1)) == 0 and hi_b <= cb:
+            return mk_int(ta)      # x & (2**k - 1) with 0 <= x < 2**k
         total = I(0)
         for lo, w in _runs(cb):
             total = total + ((ta / I(1 << lo)) % I(1 << w)) * I(1 << lo)
@@ -432,7 +610,12 @@ def int_shl(a, b):
 def int_shr(a, b):
     if isinstance(a, int) and isinstance(b, int):
         return a >> b
-    return mk_int(T(a) / pow2_term(T(b)))
+    p2 = pow2_term(T(b))
+    lo_b, hi_b = bounds(simp(T(a)))
+    cp = const_of(p2)
+    if cp is not None and lo_b is not None and hi_b is not None and lo_b >= 0 and hi_b < cp:
+        return 0
+    return mk_int(T(a) / p2)
 
 
 def int_floordiv(a, b):
@@ -445,6 +628,9 @@ def int_floordiv(a, b):
     if cb == 0:
         raise ZeroDivisionError("integer division or modulo by zero")
     if cb > 0:
+        lo_b, hi_b = bounds(simp(T(a)))
+        if lo_b is not None and hi_b is not None and lo_b >= 0 and hi_b < cb:
+            return 0
         return mk_int(T(a) / I(cb))
     # python floor division by negative constant: a // b == (-a) // (-b)
     return mk_int((-T(a)) / I(-cb))
@@ -460,6 +646,9 @@ def int_mod(a, b):
     if cb == 0:
         raise ZeroDivisionError("integer division or modulo by zero")
     if cb > 0:
+        lo_b, hi_b = bounds(simp(T(a)))
+        if lo_b is not None and hi_b is not None and lo_b >= 0 and hi_b < cb:
+            return mk_int(T(a))
         return mk_int(T(a) % I(cb))
     raise OutOfReach("modulo by negative constant")
 
@@ -500,7 +689,7 @@ class Base:
         t = z3.Select(self.arr, idx)
         c = _CTX[0]
         if c is not None:
-            key = ("rng", self.name, str(simp(idx)))
+            key = ("rng", self.name, simp(idx).get_id())
             if key not in c.ghost:
                 c.ghost[key] = True
                 rng = z3.And(t >= 0, t <= c.ghost.get(("maxel", self.name), self.maxel))
@@ -593,7 +782,7 @@ def numlen(v):
     t = _numlen(v)
     cx = _CTX[0]
     if cx is not None:
-        key = ("numlen", str(v))
+        key = ("numlen", v.get_id())
         if key not in cx.ghost:
             cx.ghost[key] = True
             ax = z3.And(t >= 1, z3.Implies(v < 10, t == 1), z3.Implies(v >= 10, t >= 2),
@@ -776,31 +965,44 @@ def chunk_elem(ch, i):
 
 
 def rope_index_term(r, i):
-    """element at offset term i of rope r (caller guarantees 0 <= i < len)."""
+    """element at offset term i of rope r (caller guarantees 0 <= i < len).  Chunk membership is resolved by the
+    interval analysis where possible; what remains becomes an ITE chain (no forking)."""
     r = to_rope(r)
     if not r.chunks:
         raise OutOfReach("index into empty rope")
-    ci = const_of(T(i))
+    c = _CTX[0]
+    ti = simp(T(i))
     off = I(0)
-    # fast path: constant index inside leading constant-length chunks
-    if ci is not None:
-        o = 0
-        for ch in r.chunks:
-            n = const_of(ch.length())
-            if n is None:
-                break
-            if ci < o + n:
-                return simp(chunk_elem(ch, ci - o))
-            o += n
-    terms = []
-    for ch in r.chunks:
+    pending = []     # (condition, element) for chunks that may contain i
+    last = None
+    for k, ch in enumerate(r.chunks):
         n = ch.length()
-        terms.append((off, n, ch))
-        off = simp(off + n)
-    off0, n0, ch0 = terms[-1]
-    t = chunk_elem(ch0, simp(T(i) - off0))
-    for off_k, n_k, ch_k in reversed(terms[:-1]):
-        t = z3.If(T(i) < off_k + n_k, chunk_elem(ch_k, simp(T(i) - off_k)), t)
+        end = simp(off + n)
+        d = simp(ti - off)
+        cond = simp(ti < end)
+        q = True if z3.is_true(cond) else (False if z3.is_false(cond) else (c.quick(cond) if c is not None else None))
+        if q is False:
+            off = end
+            continue
+        # index may be in this chunk
+        cd = const_of(d)
+        if isinstance(ch, BL) and cd is None:
+            # unknown offset inside a literal: bound the offset if we can, else generic ITE inside chunk_elem
+            pass
+        el = chunk_elem(ch, cd if cd is not None else d) if not (isinstance(ch, BL) and cd is not None and not (0 <= cd < len(ch.items))) else None
+        if el is None:
+            off = end
+            continue
+        if q is True:
+            pending.append((None, el))
+            break
+        pending.append((cond, el))
+        off = end
+    if not pending:
+        raise OutOfReach("index outside rope")
+    t = pending[-1][1]
+    for cond, el in reversed(pending[:-1]):
+        t = z3.If(cond, el, t)
     return simp(t)
 
 
